@@ -537,6 +537,24 @@ def install_spies():
     wrap_step("get_second_order_correction_step", "soc")
     wrap_step("get_geometry_step", "geo")
 
+    orig_sbi = TR.set_best_index
+    _ORIG["TrustRegion.set_best_index"] = orig_sbi
+
+    def spy_sbi(self):
+        out = orig_sbi(self)
+        rec = CUR
+        if rec is not None and "centre" in rec.monitors and hasattr(self, "_models"):
+            m = self.models
+            merits, viols = [], []
+            for k in range(m.npt):
+                xk = m.interpolation.point(k)
+                merits.append(float(self.merit(xk, m.fun_val[k], m.cub_val[k, :], m.ceq_val[k, :])))
+                viols.append(float(self._pb.maxcv(xk, m.cub_val[k, :], m.ceq_val[k, :])))
+            rec.notes.setdefault("centres", []).append((int(self.best_index), merits, viols))
+        return out
+
+    TR.set_best_index = spy_sbi
+
     orig_idx = TR.get_index_to_remove
     _ORIG["TrustRegion.get_index_to_remove"] = orig_idx
 
